@@ -67,6 +67,20 @@ def ensure_select_keyword_order(select, operation):
             raise ParsingException(f"{operation} must go before {next_op}")
 
 
+def json_to_sql(value):
+    """JSON-like text of a parameter value that the grammar (rules `json`, `json_array`, `json_value`) reads back:
+    like json.dumps, but strings are written the way the lexer decodes them (only backslash and the double quote are
+    escaped; json.dumps wrote a newline as the two characters \\n, which unescape_string keeps as they are)"""
+    import json
+    if isinstance(value, str):
+        return '"' + value.replace('\\', '\\\\').replace('"', '\\"') + '"'
+    if isinstance(value, (list, tuple)):
+        return '[' + ', '.join(json_to_sql(v) for v in value) + ']'
+    if isinstance(value, dict):
+        return '{' + ', '.join(f'{json_to_sql(str(k))}: {json_to_sql(v)}' for k, v in value.items()) + '}'
+    return json.dumps(value, ensure_ascii=False)
+
+
 def params_to_string(params):
     """`key=value, ...` of a USING / SET parameter list in a form that the grammar reads back:
     names are quoted like identifiers, identifiers and typed objects are printed as SQL, everything else as JSON
@@ -83,7 +97,7 @@ def params_to_string(params):
         elif isinstance(value, ASTNode):
             value_str = value.to_string()
         else:
-            value_str = json.dumps(value, ensure_ascii=False)
+            value_str = json_to_sql(value)
         items.append(f'{Identifier(str(key)).to_string()}={value_str}')
     return ', '.join(items)
 
